@@ -1,7 +1,7 @@
 //@ module: val_numeric
 //@ crate: air-interpreter-value
 //@ attach: crates/air-lib/interpreter-value/src/value/partial_eq.rs
-//@ functions: eq_i64; eq_u64; eq_f64; eq_f32; eq_bool; JValue::as_i64; JValue::as_u64; JValue::as_f64; From<i8..i64,u8..u64,f32,f64,bool> for JValue; From<&serde_json::Value> for JValue (scalar arms); <JValue as PartialEq>::eq (scalar arms)
+//@ functions: <JValue as Deserialize>::deserialize (ValueVisitor::visit_u64 / visit_i64 / visit_f64 / visit_bool / visit_unit); eq_i64; eq_u64; eq_f64; eq_f32; eq_bool; JValue::as_i64; JValue::as_u64; JValue::as_f64; From<i8..i64,u8..u64,f32,f64,bool> for JValue; From<&serde_json::Value> for JValue (scalar arms); <JValue as PartialEq>::eq (scalar arms)
 //@ assumes: oracle is serde_json::Value built from the same Rust number (serde_json is the reference implementation of "standard JSON" here)
 //@ decides: C26: for ALL i64/u64/f64 (and the narrower integer widths) the interpreter's JSON value converts from / compares with Rust numbers exactly as serde_json::Value does, including i64::MIN, u64::MAX, negative zero, NaN and infinities (which become null); conversion from serde_json::Value preserves scalars
 //@ outside: printing and parsing of text (itoa/ryu/serde_json reader), strings, nested arrays/objects beyond the shapes in val_structure
@@ -12,6 +12,7 @@
 //@ harness: name=c26_f32_values playback=1 props=C26 cap=900 cost=60 sym="f: any f32" bound="none"
 //@ harness: name=c26_integer_vs_float playback=1 props=C26 tier=thorough core=0 cap=1800 cost=300 sym="n: any i64; y: any f64" bound="none"
 //@ harness: name=c26_scalars_from_serde_json playback=1 props=C26 cap=600 cost=30 sym="any i64, u64, bool" bound="none"
+//@ harness: name=c26_deserialize_scalars playback=1 props=C26 cap=900 cost=60 sym="u: any u64; n: any i64; x: any f64; b: any bool (fed through serde's primitive deserializers into JValue's Deserialize impl)" bound="none"
 //@ harness: name=c26_numeric_vacuity playback=1 props=C26 expect=fail cap=600 cost=20 sym="as integers" bound="none"
 
 use super::*;
@@ -131,4 +132,38 @@ fn c26_scalars_from_serde_json() {
     kani::assert(JValue::from(&Value::Null) == JValue::Null && JValue::from(()) == JValue::Null, "C26: null");
     kani::assert(JValue::from(b).as_bool() == Some(b) && JValue::from(n).as_bool().is_none(), "C26: as_bool");
     kani::cover!(n < 0, "negative");
+}
+
+/// The parsing side: whatever integer / float / bool a JSON reader hands to JValue's Deserialize impl
+/// becomes the same value as direct conversion (and as serde_json::Value's own Deserialize impl builds).
+#[kani::proof]
+#[kani::unwind(2)]
+fn c26_deserialize_scalars() {
+    use serde::de::value::{BoolDeserializer, Error, F64Deserializer, I64Deserializer, U64Deserializer, UnitDeserializer};
+    use serde::de::IntoDeserializer;
+    use serde::Deserialize;
+    let (u, n, x, b): (u64, i64, f64, bool) = (kani::any(), kani::any(), kani::any(), kani::any());
+    let du: U64Deserializer<Error> = u.into_deserializer();
+    let ru = JValue::deserialize(du);
+    kani::assert(matches!(&ru, Ok(v) if *v == JValue::from(u) && v.as_u64() == Some(u)), "C26: a parsed u64 is that u64 (also above i64::MAX)");
+    let dn: I64Deserializer<Error> = n.into_deserializer();
+    let rn = JValue::deserialize(dn);
+    kani::assert(matches!(&rn, Ok(v) if *v == JValue::from(n) && v.as_i64() == Some(n)), "C26: a parsed i64 is that i64");
+    let dx: F64Deserializer<Error> = x.into_deserializer();
+    let rx = JValue::deserialize(dx);
+    kani::assert(matches!(&rx, Ok(v) if v.is_null() == !x.is_finite() && v.as_f64() == Value::from(x).as_f64()), "C26: a parsed f64 as serde_json");
+    let db: BoolDeserializer<Error> = b.into_deserializer();
+    let rb = JValue::deserialize(db);
+    kani::assert(matches!(&rb, Ok(v) if *v == JValue::Bool(b)), "C26: a parsed bool");
+    let dunit: UnitDeserializer<Error> = ().into_deserializer();
+    let rnull = JValue::deserialize(dunit);
+    kani::assert(matches!(&rnull, Ok(JValue::Null)), "C26: null");
+    // same as serde_json::Value's own impl
+    let su = Value::deserialize({
+        let d: U64Deserializer<Error> = u.into_deserializer();
+        d
+    });
+    kani::assert(matches!((&ru, &su), (Ok(j), Ok(s)) if j.as_u64() == s.as_u64() && j.as_i64() == s.as_i64()), "C26: agrees with serde_json::Value on parsed u64");
+    kani::cover!(u > i64::MAX as u64, "u64 above i64::MAX");
+    std::mem::forget((ru, rn, rx, rb, rnull, su));
 }
